@@ -53,7 +53,7 @@ def extra_functionals(sp, rng):
 
 
 def check(ctx, fname, sname, sp, f, tags, rng):
-    comp = fname
+    comp = functab.composed_component(fname, tags)
     cfg = util.space_tag(sp)
     try:
         fc = f.convex_conj
@@ -159,6 +159,8 @@ def run(ctx):
     for sname, sp in functab.spaces():
         for fname, thunk, tags in extra_functionals(sp, crng):
             recipes.append((fname, sname, sp, thunk, tags))
+    for fname, sname, sp, thunk, tags, _ref in functab.all_composed(crng, ctx.thorough):
+        recipes.append((fname, sname, sp, thunk, tags))
     for i, (fname, sname, sp, thunk, tags) in enumerate(recipes):
         if not ctx.mine(i):
             continue
